@@ -4,6 +4,7 @@ import (
 	"github.com/apparentlymart/go-versions/versions"
 	"fmt"
 	"strings"
+	"unicode/utf8"
 
 	"github.com/hashicorp/go-slug/sourceaddrs"
 )
@@ -75,7 +76,7 @@ func canonicalRel(ups int, names []string) string {
 
 func init() {
 	lanes["resolve"] = func(cfg *Config, rep *Report) {
-		rep.Rule = "bases of every kind (remote, registry, final registry, local) with sub-paths of depth 0..4 x canonical relative paths (0..5 '..' then 0..3 names over {a,b,c2}) enumerated exhaustively, final registry bases also with pre-release / build-metadata versions (final resolver; version and package must come back as the base has them), plus random longer ones and (base, rel1, rel2) triples for composition; non-trivial = rel contains '..' or base has a sub-path; distinct by (base, rel[, rel2])"
+		rep.Rule = "bases of every kind (remote, registry, final registry, local) with sub-paths of depth 0..4 x canonical relative paths (0..5 '..' then 0..3 names over {a,b,c2}) enumerated exhaustively, final registry bases also with pre-release / build-metadata versions (final resolver; version and package must come back as the base has them), plus random longer ones and (base, rel1, rel2) triples for composition; oracle only (outside the model): bases of every non-local kind whose sub-path has a segment that is not valid UTF-8 (Latin-1 name, lone 0xff, truncated sequence, overlong encoding; depth 1..3) x 9 relative paths through both parsers and resolvers - refused at parse time or judged by the segment stack; non-trivial = rel contains '..' or base has a sub-path; distinct by (base, rel[, rel2])"
 		r := NewRng(cfg.Seed)
 		var reqs, impl []string
 		var human []interface{}
@@ -140,6 +141,11 @@ func init() {
 			var a sourceaddrs.Source
 			var af sourceaddrs.FinalSource
 			var err error
+			// a pair with bytes that are not valid UTF-8 is outside the model's domain (Lean strings are
+			// Unicode): no request goes to the model, the oracles alone judge. The parsers are expected to
+			// refuse such a base (the sub-path definition is io/fs.ValidPath); where one is accepted, the
+			// segment stack applies as for any other base (seed C11-g)
+			oracleOnly := !utf8.ValidString(baseStr) || !utf8.ValidString(relStr)
 			if final {
 				fs := baseStr
 				if !strings.HasPrefix(fs, ".") && !strings.Contains(fs, "::") && !strings.Contains(fs, "://") && !strings.Contains(fs, "@") {
@@ -155,10 +161,15 @@ func init() {
 				a, err = sourceaddrs.ParseSource(baseStr)
 			}
 			if err != nil {
-				if !quiet {
+				if oracleOnly {
+					rep.Count("oracle-only:not-utf8-base-refused")
+				} else if !quiet {
 					rep.Broken = append(rep.Broken, fmt.Sprintf("generator: base %q does not parse: %v", baseStr, err))
 				}
 				return nil, false
+			}
+			if oracleOnly {
+				rep.Count("oracle-only:not-utf8-base-accepted")
 			}
 			b, err := sourceaddrs.ParseLocalSource(relStr)
 			if err != nil {
@@ -168,7 +179,11 @@ func init() {
 				return nil, false
 			}
 			// what an oracle failure records: the pair and the route (enough to replay it)
-			recIn := []string{baseStr, relStr, fmt.Sprintf("final=%v", final)}
+			var recIn interface{} = []string{baseStr, relStr, fmt.Sprintf("final=%v", final)}
+			if oracleOnly {
+				// JSON cannot carry the bytes: the exact strings go in hex next to a readable rendering
+				recIn = map[string]interface{}{"base_hex": X(baseStr), "rel_hex": X(relStr), "base": fmt.Sprintf("%q", baseStr), "rel": fmt.Sprintf("%q", relStr), "final": final, "oracle_only": true}
+			}
 			var aEnc, resEnc, baseSub, resSub string
 			var isLocal, gotErr bool
 			var res sourceaddrs.Source
@@ -249,14 +264,20 @@ func init() {
 				}
 			}
 			line := "resolve " + aEnc + " | loc " + X(relStr)
-			reqs = append(reqs, line)
-			impl = append(impl, resEnc)
-			human = append(human, map[string]interface{}{"base": baseStr, "rel": relStr, "final": final})
+			if !oracleOnly {
+				reqs = append(reqs, line)
+				impl = append(impl, resEnc)
+				human = append(human, map[string]interface{}{"base": baseStr, "rel": relStr, "final": final})
+			}
 			rep.Case(line, strings.Contains(relStr, "..") || baseSub != "", map[string]interface{}{"base": baseStr, "rel": relStr, "result": resEnc})
 			if !isLocal {
 				want, ok := refApply(baseSub, relStr)
 				if ok == gotErr {
-					rep.AddOracle(OracleFailure{Property: "C11", Lane: "resolve", What: fmt.Sprintf("error/ok mismatch with segment stack (stack ok=%v, code err=%v)", ok, gotErr), Input: recIn})
+					note := ""
+					if oracleOnly {
+						note = fmt.Sprintf(": base %q is accepted with the sub-path %q, which is not valid UTF-8, and resolving %s from it is refused although the result %q stays inside the package", baseStr, baseSub, relStr, want)
+					}
+					rep.AddOracle(OracleFailure{Property: "C11", Lane: "resolve", What: fmt.Sprintf("error/ok mismatch with segment stack (stack ok=%v, code err=%v)%s", ok, gotErr, note), Input: recIn})
 				} else if ok && want != resSub {
 					rep.AddOracle(OracleFailure{Property: "C11", Lane: "resolve", What: fmt.Sprintf("sub-path %q, segment stack says %q", resSub, want), Input: recIn})
 				}
@@ -384,10 +405,13 @@ func init() {
 				Abs      *string `json:"abs"`
 				Registry *string `json:"registry"`
 				Real     *string `json:"real"`
+				BaseHex  *string `json:"base_hex"`
+				RelHex   *string `json:"rel_hex"`
 			}
 			isRel := func(x string) bool { _, err := sourceaddrs.ParseLocalSource(x); return err == nil }
 			ran := true
 			s0 := len(reqs)
+			ev0 := rep.Evaluations // (an oracle-only pair is evaluated without a model request)
 			quiet = true
 			if loadReplayInput(cfg, "resolve", &arr) && len(arr) >= 2 {
 				rep.BeginReplay()
@@ -404,8 +428,16 @@ func init() {
 					checkAbs(arr[0], arr[1])
 					join(arr[0], arr[1], "", "")
 				}
-			} else if loadReplayInput(cfg, "resolve", &m) && (m.Base != nil || m.Registry != nil) {
+			} else if loadReplayInput(cfg, "resolve", &m) && (m.Base != nil || m.Registry != nil || m.BaseHex != nil) {
 				rep.BeginReplay()
+				// the exact bytes of strings that are not valid UTF-8 (the readable rendering is quoted)
+				if m.BaseHex != nil && m.RelHex != nil {
+					if bs, ok := UnX(*m.BaseHex); ok {
+						if rl, ok := UnX(*m.RelHex); ok {
+							m.Base, m.Rel = &bs, &rl
+						}
+					}
+				}
 				switch {
 				case m.Base != nil && m.Rel != nil:
 					check(*m.Base, *m.Rel, m.Final != nil && *m.Final)
@@ -421,7 +453,7 @@ func init() {
 			quiet = false
 			if ran {
 				rep.EndReplay(reqs[s0:]...)
-				if len(reqs) == s0 {
+				if len(reqs) == s0 && rep.Evaluations == ev0 {
 					rep.Replayed.Note = "the recorded strings are not accepted by the parsers on this tree: nothing to resolve"
 				}
 			}
@@ -430,6 +462,19 @@ func init() {
 			for _, rel := range rels {
 				check(b, rel, false)
 				check(b, rel, true)
+			}
+		}
+		// oracle only: bases of every non-local kind whose sub-path has a segment that is not valid UTF-8
+		// (a Latin-1 encoded name, a lone 0xff, a truncated two-byte sequence, an overlong encoding of '/'),
+		// at depth 1..3, through both parsers and both resolvers
+		for _, bad := range []string{"caf\xe9", "mod\xff", "\xc3", "\xc0\xaf"} {
+			for _, sub := range []string{bad, "a/" + bad, bad + "/b", "a/" + bad + "/c2"} {
+				for _, b := range []string{"git::https://example.com/foo.git//" + sub, "https://example.com/foo.tar.gz//" + sub + "?x=y", "example.com/foo/bar/baz//" + sub, "foo/bar/baz//" + sub} {
+					for _, rel := range []string{"./", "./child", "../sibling", "../", "./a/b", "../../x", "../../../x", "./.hidden/y", "../../../../.."} {
+						check(b, rel, false)
+						check(b, rel, true)
+					}
+				}
 			}
 		}
 		for _, b := range finalBases {
